@@ -39,6 +39,10 @@ def split_top(s, sep=','):
     return [x.strip() for x in out if x.strip()]
 
 
+# parameter names of both sides (for the order of same-typed parameters, which the machine types cannot show)
+RNAMES, CNAMES = {}, {}
+
+
 def parse_rust(path):
     src = strip_comments(open(path).read())
     structs = {}
@@ -53,12 +57,14 @@ def parse_rust(path):
     for m in re.finditer(r'extern\s+"C"\s*\{(.*?)\n\s*\}', src, re.S):
         body = m.group(1)
         for fm in re.finditer(r'\bfn\s+(\w+)\s*\((.*?)\)\s*(->\s*([^;]+?))?\s*;', body, re.S):
-            params = []
+            params, pnames = [], []
             for p in split_top(fm.group(2)):
                 if ':' in p:
                     params.append(' '.join(p.split(':', 1)[1].split()))
+                    pnames.append(p.split(':', 1)[0].strip())
             ret = ' '.join(fm.group(4).split()) if fm.group(4) else '()'
             fns[fm.group(1)] = (params, ret)
+            RNAMES[fm.group(1)] = pnames
         for sm in re.finditer(r'\bstatic\s+(?:mut\s+)?(\w+)\s*:\s*([^;]+);', body):
             statics[sm.group(1)] = ' '.join(sm.group(2).split())
     return structs, fns, statics
@@ -114,6 +120,7 @@ def parse_c(repo, real, work):
             if re.match(r'^[\w ]+\(\*\(', q):
                 ret = q[:q.index('(')].strip() + ' (*)()'  # function returning a pointer to function
             fns[d['name']] = (params, ret, d['type']['qualType'])
+            CNAMES[d['name']] = [p.get('name', '') for p in d.get('inner', []) if p.get('kind') == 'ParmVarDecl']
         elif k == 'VarDecl' and d.get('name', '').startswith('a_'):
             vars_[d['name']] = d['type'].get('desugaredQualType', d['type']['qualType'])
     # typedef table for return types / nested names that clang did not desugar
@@ -401,6 +408,13 @@ def compare_decls(tag, rfns, rstatics, cfns, cvars, rstructs, real, tds, symbols
                 a2 = 'ptr' if a.startswith('arr(') else a
                 if a2 != b:
                     viol.append(('decl:param_type:%s:%d' % (name, i), '%s: parameter %d of %s is %s in C (%s) but %s in the binding (%s)' % (tag, i, name, a2, cp[i], b, params[i])))
+        # order of same-typed parameters: when both sides use the same set of distinct names, the names have to come in the same order
+        cn = [x.strip('_').lower() for x in CNAMES.get(name, [])]
+        rn = [x.strip('_').lower() for x in RNAMES.get(name, [])]
+        if cn and len(cn) == len(rn) and len(set(cn)) == len(cn) and sorted(cn) == sorted(rn):
+            facts.append('%s fn %s: parameter names (%s) vs (%s)' % (tag, name, ', '.join(cn), ', '.join(rn)))
+            if cn != rn:
+                viol.append(('decl:param_order:%s' % name, '%s: %s names its parameters (%s) in C but (%s) in the binding: same names, different order' % (tag, name, ', '.join(cn), ', '.join(rn))))
         if rr != crc:
             viol.append(('decl:return_type:%s' % name, '%s: %s returns %s in C (%s) but %s in the binding (%s)' % (tag, name, crc, cr, rr, ret)))
     for name, ty in sorted(rstatics.items()):
